@@ -116,7 +116,7 @@ def discharge_all(session, obligations, timeout_ms, inputs, quick_only=False, on
     return results
 
 
-def run_contract(contract, timeout_ms=10000, configure=None, configure_small=None):
+def run_contract(contract, timeout_ms=10000, configure=None, configure_small=None, configure_small2=None):
     t0 = time.time()
     sess = Session(timeout_ms)
     if configure is not None:
@@ -131,38 +131,42 @@ def run_contract(contract, timeout_ms=10000, configure=None, configure_small=Non
         out["info"] = info
         results = discharge_all(sess, obligations, timeout_ms, sess.last_inputs, quick_only=configure_small is not None)
         out["info"]["instances"] = len(obligations)
-        if configure_small is not None and any(r.status != "discharged" for r in results):
+        extra = []
+        for conf_s, sname in ((configure_small, "3 simulators, depth 1, times = Int"),
+                              (configure_small2, "3 simulators in one group, depth 2, times = (Int, Int)")):
+            if conf_s is None or not any(r.status == "unknown" for r in results):
+                continue
             # counter-model search: the SAME obligations generated from the same source under
-            # the small-scope interpretation of the sorts (every such model is an instance)
+            # a small-scope interpretation of the sorts (every such model is an instance)
             sess2 = Session(timeout_ms)
-            configure_small(sess2)
+            conf_s(sess2)
             sess2.register(contract)
             ob2, info2 = sess2.verify(contract)
             res2 = {r.oid: r for r in discharge_all(sess2, ob2, timeout_ms, sess2.last_inputs)}
-            out["info"]["small_scope"] = {"instances": len(ob2), "refuted": [k for k, r in res2.items() if r.status == "refuted"],
-                                          "status_of_open": {r.oid: (res2[r.oid].status + " " + str(res2[r.oid].secs) + "s " + res2[r.oid].detail[:80]
-                                                                     if r.oid in res2 else "absent")
-                                                             for r in results if r.status != "discharged"}}
-            small_ref = [r for r in res2.values() if r.status == "refuted"]
+            out["info"].setdefault("small_scopes", []).append({
+                "scope": sname, "instances": len(ob2), "refuted": [k for k, r in res2.items() if r.status == "refuted"],
+                "status_of_open": {r.oid: (res2[r.oid].status + " " + str(res2[r.oid].secs) + "s " + res2[r.oid].detail[:80]
+                                           if r.oid in res2 else "absent") for r in results if r.status != "discharged"}})
             for r in results:
-                if r.status == "discharged":
+                if r.status != "unknown":
                     continue
                 r2 = res2.get(r.oid)
                 if r2 is not None and r2.status == "refuted":
                     r.status, r.model = "refuted", r2.model
-                    r.detail = f"proof mode: {r.detail or r.status}; refuted in small scope (3 simulators, depth 1, times = Int)"
+                    r.detail = f"proof mode: {r.detail or r.status}; refuted in small scope ({sname})"
                     r.solver = (r.solver + "+" if r.solver else "") + "z3-small-scope"
-            # still undecided after the small-scope pass: give the remaining back ends their chance
-            left = {r.oid for r in results if r.status == "unknown"}
-            if left:
-                again = {r.oid: r for r in discharge_all(sess, obligations, timeout_ms, sess.last_inputs, only=left)}
-                results = [again.get(r.oid, r) if r.oid in left else r for r in results]
             # obligations that exist only in small scope (different path structure) and fail there
-            known = {r.oid for r in results}
-            for r2 in small_ref:
-                if r2.oid not in known:
-                    r2.detail = "refuted in small scope; obligation id has no proof-mode counterpart"
-                    results.append(r2)
+            known = {r.oid for r in results} | {r.oid for r in extra}
+            for r2 in res2.values():
+                if r2.status == "refuted" and r2.oid not in known:
+                    r2.detail = f"refuted in small scope ({sname}); obligation id has no proof-mode counterpart"
+                    extra.append(r2)
+        # still undecided after the small-scope passes: give the remaining back ends their chance
+        left = {r.oid for r in results if r.status == "unknown"}
+        if left and configure_small is not None:
+            again = {r.oid: r for r in discharge_all(sess, obligations, timeout_ms, sess.last_inputs, only=left)}
+            results = [again.get(r.oid, r) if r.oid in left else r for r in results]
+        results.extend(extra)
         out["results"] = [r.to_json() for r in results]
     except Unsupported as e:
         out["error"] = {"type": "unsupported", "msg": str(e)}
